@@ -1963,6 +1963,35 @@ header_pax_extension(struct archive_read *a, struct tar *tar,
 		}
 		name_start = p;
 		while (1) {
+			if (p >= attr_start + did_read
+			    && p < attr_start + line_length
+			    && did_read < ext_size) {
+				/* The name continues beyond the bytes we
+				 * have looked at so far: how much that is
+				 * depends on the block size of the source,
+				 * so ask for more instead of giving up. */
+				size_t p_off = p - attr_start;
+				size_t name_off = name_start - attr_start;
+				const char *q;
+
+				to_read = did_read + (ssize_t)max_size_name;
+				if (to_read > ext_size)
+					to_read = ext_size;
+				q = __archive_read_ahead(a, to_read, &did_read);
+				if (q == NULL) { /* EOF */
+					archive_set_error(&a->archive, EINVAL,
+							  "Truncated tar archive"
+							  " detected while reading pax attribute name");
+					archive_string_free(&attr_name);
+					return (ARCHIVE_FATAL);
+				}
+				if (did_read > ext_size)
+					did_read = ext_size;
+				attr_start = q;
+				p = q + p_off;
+				name_start = q + name_off;
+				continue;
+			}
 			if (p >= attr_start + did_read || p >= attr_start + line_length) {
 				archive_set_error(&a->archive, ARCHIVE_ERRNO_MISC,
 						  "Ignoring malformed pax attributes: overlarge attribute name");
